@@ -53,7 +53,10 @@ VX_MODES = FieldSet(
 # A second, different simple set: used to build stores with *differing* field sets.
 VX_OTHER = FieldSet('vx_other', o_p=FM(TP), o_s=FM(T, np.int32))
 
-ALL = {'vx_simple': VX_SIMPLE, 'vx_species': VX_SPECIES, 'vx_modes': VX_MODES,
+# same field NAMES as vx_other, different definitions
+VX_OTHER2 = FieldSet('vx_other2', o_p=FM(T, str), o_s=FM(TP, np.float64))
+
+ALL = {'vx_other2': VX_OTHER2, 'vx_simple': VX_SIMPLE, 'vx_species': VX_SPECIES, 'vx_modes': VX_MODES,
        'vx_other': VX_OTHER}
 
 SPECIES = list(Species)
